@@ -145,6 +145,8 @@ class Driver:
             if lag:
                 sq.append((rid, self.show("squeue", j)))
                 sa.append((rid, self.show("sacct", j, "R" if j.get("ran") else "PD")))
+            elif self.backend == "slurm" and st == "PD" and random.Random(self.variant * 17 + j["id"]).random() < 0.4:
+                pass        # accounting is written asynchronously: no record yet of a job the queue already lists
             else:
                 sa.append((rid, "PENDING" if st == "E" else self.show("sacct", j)))
             bj.append((rid, "UNKWN" if st == "E" else self.show("bjobs", j)))
